@@ -365,7 +365,7 @@ def _atheris(case, res):
     os.makedirs(d, exist_ok=True)
     env = dict(os.environ)
     env["VERIF_REPO"] = vsgapi.REPO
-    p = subprocess.run([sys.executable, os.path.join(vsgapi.VERIF, "harness", "fuzz", "tokens_atheris.py"), "-runs=%d" % case["runs"], "-seed=%d" % (500 + case["seed"] + (int(os.environ.get("VERIF_SEED", "1")) % 2) * 16), "-max_len=300"], cwd=d, env=env, capture_output=True, timeout=3000)
+    p = subprocess.run([sys.executable, os.path.join(vsgapi.VERIF, "harness", "fuzz", "tokens_atheris.py"), "-runs=%d" % case["runs"], "-seed=%d" % (500 + case["seed"] + (int(os.environ.get("VERIF_SEED", "1")) % 1) * 16), "-max_len=300"], cwd=d, env=env, capture_output=True, timeout=3000)
     err = p.stderr.decode("utf-8", "replace")
     res["evals"] = case["runs"]
     res["labels"]["atheris_tokenizer_runs"] = case["runs"]
